@@ -46,3 +46,40 @@ func VerifH_C07_GetRecheck() {
 		verifrt.Assert(false, "the live entry of the requested key is a hit")
 	}
 }
+
+// VerifH_C07_RedisAsyncStoreOwnsKey: the Redis write is asynchronous; the caller (cacheCtl.Store) releases its key
+// and value buffers as soon as AsyncStore returns and the next request's key reuses that memory. The queued SET must
+// therefore carry its OWN copy of the key and of the value: whatever happens to the caller's buffers afterwards,
+// the operation still says "store this value under this key" — never another request's key.
+func VerifH_C07_RedisAsyncStoreOwnsKey() {
+	verifrt.Unwind(60)
+	c := &RedisCache{setOpChan: make(chan redisSetOp, 2)}
+	c.connected.Store(true)
+	n := 3 + verifrt.Choose("keylen", 2)
+	k := pool.GetBuf(n)
+	copy(k, verifrt.BytesN("key", n))
+	v := pool.GetBuf(3)
+	copy(v, verifrt.BytesN("value", 3))
+	wantK, wantV := append([]byte(nil), k...), append([]byte(nil), v...)
+	nx := verifrt.Bool("nx")
+	stored := time.Now()
+	c.AsyncStore(k, stored, stored.Add(30*time.Second), v, nx)
+	// the caller is done with its buffers; the next request builds another key in the recycled memory
+	pool.ReleaseBuf(k)
+	pool.ReleaseBuf(v)
+	k2 := pool.GetBuf(n)
+	for i := range k2 {
+		k2[i] = 0xEE
+	}
+	v2 := pool.GetBuf(3)
+	v2[0], v2[1], v2[2] = 0xDD, 0xDD, 0xDD
+	select {
+	case op := <-c.setOpChan:
+		verifrt.Reach("queued")
+		verifrt.Assert(verifrt.EqBytes(op.k, wantK), "the queued SET still names the key it was issued for")
+		verifrt.Assert(len(op.v) == 16+3 && verifrt.EqBytes(op.v[16:], wantV), "the queued SET still carries the value it was issued with")
+		verifrt.Assert(op.nx == nx && op.ttlMs > 10, "write mode and lifetime as requested")
+	default:
+		verifrt.Reach("not-queued") // lifetime already (almost) over: nothing to write
+	}
+}
